@@ -36,10 +36,14 @@ func databaseChecks(r *vk.Run) error {
 	for k := 0; k < rounds; k++ {
 		maxio := 1 + (k+int(r.Seed))%3
 		fsz := []int{256, 384, 512}[r.Rng.Intn(3)]
+		if v := os.Getenv("C14_DB_FSZ"); v != "" {
+			fmt.Sscanf(v, "%d", &fsz) // for replaying a reported round
+		}
 		conclusive := false
 		for attempt := 0; attempt < 3 && !conclusive; attempt++ {
 			var err error
-			conclusive, err = databaseRound(r, maxio, fsz, 4+4*attempt)
+			// the re-insert check costs 10 s while the defect it shows is open: once per quick run
+			conclusive, err = databaseRound(r, maxio, fsz, 4+4*attempt, k == 0 || os.Getenv("VERIF_TIER") == "thorough")
 			if err != nil {
 				r.Finding(fmt.Sprintf("pkg/database scenario (maxio=%d fileSize=%d) could not be completed: %v", maxio, fsz, err))
 				conclusive = true
@@ -340,11 +344,21 @@ func (w *dbWorld) reads(phase string) {
 	}
 }
 
-func (w *dbWorld) readTx(id uint64) (*schema.Tx, error) {
-	return w.db.TxByID(w.ctx, &schema.TxRequest{Tx: id, EntriesSpec: &schema.EntriesSpec{
-		KvEntriesSpec:  &schema.EntryTypeSpec{Action: schema.EntryTypeAction_RAW_VALUE},
-		SqlEntriesSpec: &schema.EntryTypeSpec{Action: schema.EntryTypeAction_RAW_VALUE},
-		ZEntriesSpec:   &schema.EntryTypeSpec{Action: schema.EntryTypeAction_RAW_VALUE}}})
+// readTx: the transaction with the raw values of its entries.  A failure that goes away within
+// half a second (seen once under heavy load right after a start: "key not found") is not held
+// against the truncation; only a persistent one is reported.
+func (w *dbWorld) readTx(id uint64) (tx *schema.Tx, err error) {
+	for attempt := 0; attempt < 5; attempt++ {
+		tx, err = w.db.TxByID(w.ctx, &schema.TxRequest{Tx: id, KeepReferencesUnresolved: true, EntriesSpec: &schema.EntriesSpec{
+			KvEntriesSpec:  &schema.EntryTypeSpec{Action: schema.EntryTypeAction_RAW_VALUE},
+			SqlEntriesSpec: &schema.EntryTypeSpec{Action: schema.EntryTypeAction_RAW_VALUE},
+			ZEntriesSpec:   &schema.EntryTypeSpec{Action: schema.EntryTypeAction_RAW_VALUE}}})
+		if err == nil || w.ctx.Err() != nil {
+			return
+		}
+		time.Sleep(100 * time.Millisecond)
+	}
+	return
 }
 
 // chunkRange lists, per value log, the lowest and the highest chunk file index (-1: no file)
@@ -377,7 +391,7 @@ func minInt(a, b int) int {
 
 // databaseRound returns conclusive = false when the truncation left a DDL transaction readable
 // (the catalog copy was then not needed and the round shows nothing)
-func databaseRound(r *vk.Run, maxio, fsz, fillPerLog int) (conclusive bool, err error) {
+func databaseRound(r *vk.Run, maxio, fsz, fillPerLog int, withWedge bool) (conclusive bool, err error) {
 	dir, err := os.MkdirTemp("", "vh-c14-db")
 	if err != nil {
 		return true, err
@@ -438,15 +452,24 @@ func databaseRound(r *vk.Run, maxio, fsz, fillPerLog int) (conclusive bool, err 
 		if err := w.db.Close(); err != nil {
 			w.bad(phase, "database does not close: %v", err)
 			closed = true
+			w.dead = true
 			return false
 		}
 		closed = true
 		w.db, err = database.OpenDB("db1", nil, dbOptions(dir, maxio, fsz), quiet)
 		if err != nil {
 			w.bad(phase, "database does not open: %v", err)
+			w.dead = true
 			return false
 		}
 		closed = false
+		w.seqLast = 0 // NEXTVAL is only asked to increase within one session
+		// TxByID/Get resolve entries through the index, which catches up in the background after
+		// a start (SQL statements wait for it by themselves)
+		if err := w.db.WaitForIndexingUpto(ctx, w.txID()); err != nil {
+			w.bad(phase, "indexing does not reach tx %d after the restart: %v", w.txID(), err)
+			return false
+		}
 		return true
 	}
 	if !restart("baseline restart") {
@@ -524,6 +547,9 @@ func databaseRound(r *vk.Run, maxio, fsz, fillPerLog int) (conclusive bool, err 
 	if ok, err := cycle("first cycle"); !ok || err != nil {
 		return ok, err
 	}
+	if w.dead {
+		return true, nil
+	}
 	// DDL on the restarted database, then a second cycle that must carry the copied catalog
 	if err := w.exec("CREATE TABLE table9 (id INTEGER, PRIMARY KEY id)"); err != nil {
 		w.bad("after restart", "CREATE TABLE after truncation and restart fails: %v", err)
@@ -549,6 +575,8 @@ func databaseRound(r *vk.Run, maxio, fsz, fillPerLog int) (conclusive bool, err 
 	if ok, err := cycle("second cycle"); !ok || err != nil {
 		return ok, err
 	}
-	w.wedge()
+	if withWedge {
+		w.wedge()
+	}
 	return true, nil
 }
